@@ -325,6 +325,12 @@ Section C20_rollup.
     exists l, degree_centrality teqb tltb g = Ok l /\ map fst l = get_all_node_names g.
   Proof. exact (total_degree_centrality teqb tltb teqb_spec tltb_total). Qed.
 
+  (* ---- get_sparse_adjacency_matrix: both kinds (C20_matrix_total above is the single-edge half) ---- *)
+  Theorem C20_total_get_sparse_adjacency_matrix : forall (g : gstate), WF g ->
+    if multi (sp g) then matrix_triplets g = Err WrongMethod
+    else exists tr, matrix_triplets g = Ok tr.
+  Proof. exact (total_sparse_adjacency_matrix teqb tltb tltb_asym tltb_total). Qed.
+
   (* ---- cluster/mod.rs, weighted = false.  [nn] is the Option<&[T]> argument: None, or ANY list of
      names - empty, with repetitions, with names that are not nodes ---- *)
   Theorem C20_total_triangles : forall (g : gstate) nn, WF g ->
